@@ -1057,18 +1057,19 @@ def run(ctx: vlib.Ctx):
     br3 = ctx.theorems("props/C10_fields.vo", ["C10_field_decl"], kernels=["K5"])
     br4 = ctx.theorems("props/C10_positions.vo", ["C10_positions", "C10_dialect_reaches", "C10_format_dialect_everywhere"],
                        kernels=["K5", "K5P", "K8"])
+    br6 = ctx.theorems("props/C10_positions_dispatched.vo", ["C10_positions_dispatched"], kernels=["K5", "K5P", "K8", "K5D"])
     br5 = ctx.theorems("props/C10_dispatch.vo", ["C10_dispatch_optional", "C10_dispatch_union", "C10_dispatch_newtype", "C10_dispatch_self",
                                                  "C10_dispatch_named_tuple", "C10_dispatch_tuple", "C10_dispatch_list",
                                                  "C10_dispatch_typed_dict", "C10_dispatch_mapping"], kernels=["K5D"])
-    proofs_ok = br.ok and br2.ok and br3.ok and br4.ok and br5.ok and all(ctx.kernel_report.get(k, {}).get("ok") for k in ("K5", "K5P", "K8"))
+    proofs_ok = br.ok and br2.ok and br3.ok and br4.ok and br5.ok and br6.ok and all(ctx.kernel_report.get(k, {}).get("ok") for k in ("K5", "K5P", "K8"))
     if proofs_ok and not ctx.quick():
         # second opinion: the independent checker on the compiled property files
         with vlib.Lock("build"):
             rc, out, _ = vlib.run(["timeout", "600", "coqchk", "-silent", "-o", "-Q", "theories", "Verif", "-Q", "gen", "VerifGen",
-                                   "-Q", "props", "VerifProps", "VerifProps.C10_precedence", "VerifProps.C10_single", "VerifProps.C10_fields", "VerifProps.C10_positions", "VerifProps.C10_dispatch"],
+                                   "-Q", "props", "VerifProps", "VerifProps.C10_precedence", "VerifProps.C10_single", "VerifProps.C10_fields", "VerifProps.C10_positions", "VerifProps.C10_dispatch", "VerifProps.C10_positions_dispatched"],
                                   cwd=vlib.COQ, timeout=640)
         ok = rc == 0 and "Axioms: <none>" in out
-        ctx.obligation("coqchk -o (C10_precedence, C10_single, C10_fields, C10_positions, C10_dispatch): no axioms", ok, out[-600:])
+        ctx.obligation("coqchk -o (C10_precedence, C10_single, C10_fields, C10_positions, C10_dispatch, C10_positions_dispatched): no axioms", ok, out[-600:])
         if not ok:
             ctx.not_shown("coqchk", out[-1500:])
 
@@ -1212,16 +1213,28 @@ def paths_part(ctx: vlib.Ctx, proofs_ok: bool):
 
     done = False
     kr = ctx.kernel_report
-    if all(kr.get(k, {}).get("ok") for k in ("K5", "K5P", "K8")):
+    # without PositionsV the valuated path is carried along but not interpreted
+    local_vnode = ("Inductive VNODE := VType (p: string -> bool) (decl: kv) | VSelf (p: string -> bool) (f: fieldopts) (decl: kv) "
+                   "| VData (f: fieldopts) (decl: kv).\n")
+    if all(kr.get(k, {}).get("ok") for k in ("K5", "K5P", "K8", "K5D")):
+        vb = vlib.coq_make(["theories/PositionsV.vo"])
+        if vb.ok:
+            done = compare("positions-real-classes-vs-dispatched-compile-and-model",
+                           "PyK_strat OptProj Strategies Positions K5Kernel K5PKernel Dispatch PositionsV",
+                           "From VerifGen Require Import K5 K5D.", "Definition VNODE := vnode.\n" + cp.COQ_DEFS + cp.COQ_OK_DISPATCHED,
+                           ["theories/PositionsV.vo"])
+        else:
+            ctx.notes.append("PositionsV.v does not build against the translated kernels: " + (vb.error or "")[:300])
+    if not done and all(kr.get(k, {}).get("ok") for k in ("K5", "K5P", "K8")):
         kb = vlib.coq_make(["theories/K5PKernel.vo"])
         if kb.ok:
             done = compare("positions-real-classes-vs-compile-and-model",
                            "PyK_strat OptProj Strategies Positions K5Kernel K5PKernel",
-                           "From VerifGen Require Import K5.", cp.COQ_DEFS + cp.COQ_OK_KERNEL, ["theories/K5PKernel.vo"])
+                           "From VerifGen Require Import K5.", local_vnode + cp.COQ_DEFS + cp.COQ_OK_KERNEL, ["theories/K5PKernel.vo"])
         else:
             ctx.notes.append("K5PKernel.v does not build against the translated kernels: " + (kb.error or "")[:300])
     if not done:
-        compare("positions-real-classes-vs-model", "PyK_strat OptProj Strategies Positions", "", cp.COQ_DEFS + cp.COQ_OK_MODEL,
+        compare("positions-real-classes-vs-model", "PyK_strat OptProj Strategies Positions", "", local_vnode + cp.COQ_DEFS + cp.COQ_OK_MODEL,
                 ["theories/Positions.vo"])
 
 
